@@ -115,7 +115,7 @@ def ranked_case(rng):
 
 
 def generate(rng, tier):
-    n = {"quick": 240, "escalated": 1200, "thorough": 5000}[tier]
+    n = {"quick": 800, "escalated": 1200, "thorough": 5000}[tier]
     cases = []
     for k in range(n):
         cases.append(spiral_case(rng) if k % 2 else ranked_case(rng))
